@@ -10,6 +10,7 @@ from sim.core import Outcome, PRNG, HarnessError, digest_of
 CDEF = """
 int probe(int newval);
 int vprobe(int newval, ...);
+int probe0(void);
 int via_cb(int (*cb)(int), int pre, int *seen_after);
 int via_xp(int pre, int *seen_after);
 int via_cb_gil(int (*cb)(int), int pre, int *seen_after);
@@ -22,6 +23,8 @@ SRC = r"""
 #include <errno.h>
 int probe(int newval) { int e = errno; errno = newval; return e; }
 int vprobe(int newval, ...) { int e = errno; errno = newval; return e; }
+/* no argument at all: returns the errno it found and leaves a value derived from it */
+int probe0(void) { int e = errno; errno = (int)(((unsigned)e) % 100000u) + 7; return e; }
 int via_cb(int (*cb)(int), int pre, int *seen_after)
 { int r; errno = pre; r = cb(pre); *seen_after = errno; return r; }
 static int xp_body(int);
@@ -40,7 +43,7 @@ int *gv_fetch(void) { gv_seen_tl = errno; errno = gv_seen_tl + 1000; return &gv_
 #define gv (*gv_fetch())
 int get_gv_seen(void) { return gv_seen_tl; }
 """
-ABI_CDEF = "int probe(int newval); int via_cb(int (*cb)(int), int pre, int *seen_after);"
+ABI_CDEF = "int probe(int newval); int probe0(void); int via_cb(int (*cb)(int), int pre, int *seen_after);"
 INT_MAX = 2 ** 31 - 1
 VALUES = [0, 1, 2, 11, 13, 22, 34, 111, 4095, 65536, INT_MAX, INT_MAX - 1, -1, -7]
 BAD_VALUES = [2 ** 31, 2 ** 40, -2 ** 31 - 1, 2 ** 64]
@@ -132,7 +135,14 @@ class Run(object):
         self.lastwrite[w] = 'set'
 
     def probe(self, w, path, n):
-        if path.endswith('_conv'):
+        if path.endswith('0'):
+            # functions without arguments (nothing to convert before the call)
+            c = self.check
+            fn = {'api0': c.mod.lib.probe0, 'addr0': c.addr_probe0, 'dlopen0': c.dl_lib.probe0,
+                  'abi0': c.abi_lib.probe0}[path]
+            got = fn()
+            n = (got & 0xffffffff) % 100000 + 7
+        elif path.endswith('_conv'):
             # same call path, but converting the argument clobbers the C errno first
             got = self.probes[path[:-5]](Clobber(n))
             self.out.fault('argument_conversion_clobbers_errno')
@@ -409,6 +419,7 @@ class C22(core.Check):
         self.dl_lib = self.iffi.dlopen(_verif_errno.__file__)
         self.abi_lib = _verif_errno_abi.ffi.dlopen(_verif_errno.__file__)
         self.addr_probe = self.mod.ffi.addressof(self.mod.lib, 'probe')
+        self.addr_probe0 = self.mod.ffi.addressof(self.mod.lib, 'probe0')
         self.addr_via_cb = self.mod.ffi.addressof(self.mod.lib, 'via_cb')
         self.active = variant
         self.next_fid = 0
@@ -427,7 +438,8 @@ class C22(core.Check):
             elif k == 'badset':
                 out.append(['set', rng.choice(BAD_VALUES), rng.below(2)])
             elif k == 'probe':
-                out.append(['probe', rng.choice(['api', 'addr', 'dlopen', 'abi', 'variadic', 'api_conv', 'addr_conv', 'dlopen_conv']),
+                out.append(['probe', rng.choice(['api', 'addr', 'dlopen', 'abi', 'variadic', 'api_conv', 'addr_conv', 'dlopen_conv',
+                                        'api0', 'addr0', 'dlopen0', 'abi0']),
                             rng.choice(VALUES)])
             elif k == 'cb':
                 out.append(['cb', rng.choice(['cb_i', 'cb_m', 'cb_dl', 'cb_addr', 'xp', 'cb_gil', 'xp_gil']), rng.choice(VALUES[:10]),
